@@ -543,6 +543,27 @@ func (l *lane) judge(id, op, point string, j int, p *prepared, cl *s3c.Client, a
 			viol("acknowledged-version-unreadable", fmt.Sprintf("%s?versionId=%s: %s %s (want write %d)", a.Key, a.Vid, r, o.Torn, a.Wid))
 		}
 	}
+	// versions: the listing shows only versions the model knows - ids acknowledged before the crash, or whole writes
+	// (the interrupted one included). Temporary data must never be listed or served as a version.
+	if p.versioned {
+		if vr := cl.Do(&s3c.Req{Method: "GET", Path: s3c.BucketPath(b), Query: "versions="}); vr.OK() {
+			var vl verList
+			xml.Unmarshal(vr.Body, &vl)
+			ackedVid := map[string]bool{}
+			for _, a := range p.acked {
+				ackedVid[a.Key+"|"+a.Vid] = true
+			}
+			for _, v := range vl.Version {
+				if ackedVid[v.Key+"|"+v.VersionId] || strings.HasSuffix(v.Key, "/") {
+					continue
+				}
+				r := cl.GetObjectV(b, v.Key, v.VersionId)
+				if o := l.ws.Judge(r, false); o.Wid <= 0 {
+					viol("unknown-version-listed-after-crash", fmt.Sprintf("%s?versionId=%s is listed; GET answers %s %s", v.Key, v.VersionId, r, o.Torn))
+				}
+			}
+		}
+	}
 	// uploads: only uploads the model knows
 	ur := cl.Do(&s3c.Req{Method: "GET", Path: s3c.BucketPath(b), Query: "uploads="})
 	if ur.OK() {
@@ -925,7 +946,9 @@ func runLane(c *ev.Ctx, cf cfg, ops []string) {
 func Run(c *ev.Ctx) int {
 	c.Assume("process death (SIGKILL) at instrumented filesystem steps; power loss / lost page cache is out of reach (the code never fsyncs)")
 	c.Assume("the operation is the only request in flight when the process dies")
-	cfgs := []cfg{{"otmp+xattr", false, false}, {"named+sidecar", true, true}}
+	// named+xattr also in the quick tier: under the sidecar store several anomalies are known findings, so named
+	// temp files need a configuration in which every anomaly still counts
+	cfgs := []cfg{{"otmp+xattr", false, false}, {"named+sidecar", true, true}, {"named+xattr", true, false}}
 	ops := []string{}
 	for _, o := range opKinds {
 		if c.Thorough() || quickOps[o] {
@@ -933,7 +956,7 @@ func Run(c *ev.Ctx) int {
 		}
 	}
 	if c.Thorough() {
-		cfgs = append(cfgs, cfg{"named+xattr", true, false}, cfg{"otmp+sidecar", false, true})
+		cfgs = append(cfgs, cfg{"otmp+sidecar", false, true})
 	}
 	var wg sync.WaitGroup
 	for _, cf := range cfgs {
